@@ -92,6 +92,16 @@ int32_t FeatureChecker::visitExprStatement(ExprStatement* stat)
     return 0;
 }
 
+int32_t FeatureChecker::visitForStatement(ForStatement* stat)
+{
+    // the initialisation and the step of a for loop are updates like any expression statement
+    if (!stat->init.empty())
+        visitAssignment(stat->init);
+    if (!stat->step.empty())
+        visitAssignment(stat->step);
+    return AbstractStatementVisitor::visitForStatement(stat);
+}
+
 void FeatureChecker::visitEdge(edge_t& edge)
 {
     visitAssignment(edge.assign);
